@@ -227,6 +227,21 @@ CHECKS = {
              'set (the isLeftJoin flag is pinned by the suite in the opposite sense of its documentation); CSV cells contain no '
              'line breaks or leading blanks.',
         ref='DESIGN.md 5 C19'),
+    'C18': dict(
+        technique='TLA+ lint rules as sets and edits (BareLint) + TLC model checking that acting on a warning preserves the specified '
+                  'run (MC_Lint) + TLC judgement of the real lint_script output (exact label / redefinition sets, purity) and of '
+                  'real runs before / after acting on each actionable warning (Trace_Lint)',
+        text='TLC checks on every statement list <= 3 (4) over the jump alphabet that deleting an unused label or pointless statement '
+             'and renaming an unused variable or argument leaves result, probe sequence and globals of the specified run unchanged, '
+             'and that no unknown label implies no "Unknown jump label" error. The real lint_script runs on every alphabet model, '
+             'random jump models with duplicate labels / dangling jumps / duplicate functions and arguments, parsed random '
+             'structured programs and the shipped scripts: it must not raise, not modify the model, be deterministic; its '
+             'unknown-label and redefinition warnings must equal the sets BareLint defines and its unused-* warnings must be '
+             'justified by the rules; for every actionable warning the edit is applied to the real model and both models are run by '
+             'the real runtime - status, result, output and final globals must be identical.',
+        note='Used-before-assignment and empty-script warnings are parsed but not judged (the property does not constrain them); '
+             'edits are skipped when the function name is defined twice (the warning does not identify the statement).',
+        ref='DESIGN.md 5 C18'),
 }
 
 NOT_YET = 'check not built yet in this round (work in progress; see DESIGN.md section 9 build order)'
